@@ -32,6 +32,12 @@ type Loc struct {
 	Sort    *Sort      // sort of the addressed value
 	GoT     types.Type // Go type of the addressed value
 	RSort   *Sort      // sort of root value
+	// element of an abstract list (sequence view) held in a variable: a store replaces the element through the spec function
+	// setelem_<sort>(list, index, element) and writes the new list back to AbsBase
+	AbsBase *Loc
+	AbsIdx  *Term
+	AbsSet  *specFuncDef
+	AbsAt   string
 }
 
 func (l *Loc) extend(pe PathElem, s *Sort, gt types.Type) *Loc {
@@ -177,6 +183,16 @@ func (v *Verifier) readPath(t *Term, path []PathElem) *Term {
 func (v *Verifier) writePath(t *Term, path []PathElem, x *Term) *Term {
 	if len(path) == 0 {
 		if x.Sort != t.Sort {
+			// a list built element by element as a concrete slice (`rawslice`) stored where the abstract list sort is expected:
+			// the abstract value is an uninterpreted function of the slice (nothing is assumed about it)
+			if isSliceSort(x.Sort) && !isSliceSort(t.Sort) {
+				for _, at := range v.tm.abstract {
+					if at.Sort == t.Sort && at.ListNil != "" {
+						v.notes["a rawslice value stored into a field of abstract list sort "+t.Sort.Name+" is read as the uninterpreted value fromraw(slice)"] = true
+						return v.c.UF("fromraw_"+sanitize(t.Sort.Name), t.Sort, x)
+					}
+				}
+			}
 			unsupported("store sort mismatch: %s into %s", x.Sort.Name, t.Sort.Name)
 		}
 		return x
@@ -205,6 +221,15 @@ func (v *Verifier) store(st *State, l *Loc, x *Term) {
 	case l.Ref != nil:
 		h := v.getGlobal(st, l.HeapKey)
 		st.globals[l.HeapKey] = v.c.Store(h, l.Ref, v.writePath(v.c.Select(h, l.Ref), l.Path, x))
+	case l.AbsBase != nil:
+		list := v.load(st, l.AbsBase)
+		elem := v.c.App(l.AbsAt, l.RSort, list, l.AbsIdx)
+		env := &Env{v: v, vars: map[string]SV{}, st: st}
+		sv, err := env.applySpecFunc(l.AbsSet, []SV{{T: list}, {T: l.AbsIdx}, {T: v.writePath(elem, l.Path, x)}})
+		if err != nil {
+			panic(specError{err.Error()})
+		}
+		v.store(st, l.AbsBase, sv.T)
 	default:
 		unsupported("store through a read-only value location")
 	}
